@@ -11,3 +11,11 @@ Extraction "model.ml" mkGraph dist_matrix ecc_ref diam_ref rad_ref comp_ref comp
   zgirth blocks_ref artic_ref cycles_ref icycles_ref ipaths_ref icycles_bounded_ref ipaths_bounded_ref
   distance_go eccentricity_go diameter_go radius_go connected_component_go connected_components_go girth_go number_of_induced_paths_go
   biconnected_components_go.
+(* + the models of NumberOfInducedCycles (Invariants/CycleICModel.v) and NumberOfCycles
+   (Invariants/CycleNCModel.v); again the last line repeats every name *)
+From Mamba Require Import Invariants.CycleICModel Invariants.CycleNCModel.
+Extraction "model.ml" mkGraph dist_matrix ecc_ref diam_ref rad_ref comp_ref comps_ref
+  zgirth blocks_ref artic_ref cycles_ref icycles_ref ipaths_ref icycles_bounded_ref ipaths_bounded_ref
+  distance_go eccentricity_go diameter_go radius_go connected_component_go connected_components_go girth_go number_of_induced_paths_go
+  biconnected_components_go
+  number_of_induced_cycles_go number_of_cycles_go.
